@@ -8,7 +8,7 @@
 
 use encoding_rs_io::DecodeReaderBytesBuilder;
 use saphyr_parser::BufferedInput;
-use std::cell::RefCell;
+use std::cell::{Cell, RefCell};
 use std::io::{self, BufReader, Error, Read};
 use std::rc::Rc;
 
@@ -18,10 +18,13 @@ pub type ReaderInput<'a> = BufferedInput<ChunkedChars<DynBufReader<'a>>>;
 pub type ReaderInputError = Rc<RefCell<Option<Error>>>;
 
 pub struct ChunkedChars<R: Read> {
-    /// Optional hard cap on total decoded UTF-8 bytes yielded by this iterator.
+    /// Optional hard cap on total input bytes consumed through this iterator.
     max_bytes: Option<usize>,
-    /// Running count of decoded bytes yielded so far (from the underlying reader).
+    /// Running count of input bytes consumed so far (from the underlying reader).
     total_bytes: usize,
+    /// Set by [`Utf16TailGuard`] when the raw input is UTF-16 and is transcoded on the fly:
+    /// the cap then counts the bytes of the raw input, not of its UTF-8 transcription.
+    source_is_utf16: Rc<Cell<bool>>,
     /// The underlying reader that already yields UTF-8 bytes (typically a
     /// `BufReader<DecodeReaderBytes<...>>`). It is read incrementally.
     reader: R,
@@ -45,6 +48,7 @@ impl<R: Read> ChunkedChars<R> {
         Self {
             max_bytes,
             total_bytes: 0,
+            source_is_utf16: Rc::new(Cell::new(false)),
             reader,
             err,
             #[cfg(serde_saphyr_verif)]
@@ -139,8 +143,14 @@ impl<R: Read> ChunkedChars<R> {
             }
         }
 
-        // Enforce byte limit if configured
-        let add = needed;
+        // Enforce byte limit if configured. A character of transcoded UTF-16 input is charged
+        // with the bytes it occupied in the raw input (the byte-order mark with the first one).
+        let add = if self.source_is_utf16.get() {
+            let bom = if self.total_bytes == 0 { 2 } else { 0 };
+            bom + if needed == 4 { 4 } else { 2 }
+        } else {
+            needed
+        };
         if let Some(limit) = self.max_bytes {
             let new_total = self.total_bytes.saturating_add(add);
             if new_total > limit {
@@ -256,12 +266,15 @@ struct Utf16TailGuard<R> {
     half: Option<u8>,
     /// The last complete code unit was a high surrogate.
     pending_high: bool,
+    /// Shared with `ChunkedChars`: set as soon as the stream is known to be UTF-16.
+    source_is_utf16: Rc<Cell<bool>>,
 }
 
 impl<R: Read> Utf16TailGuard<R> {
-    fn new(inner: R) -> Self {
+    fn new(inner: R, source_is_utf16: Rc<Cell<bool>>) -> Self {
         Self {
             inner,
+            source_is_utf16,
             head: [0; 2],
             head_len: 0,
             utf16: None,
@@ -281,6 +294,7 @@ impl<R: Read> Utf16TailGuard<R> {
                         [0xFE, 0xFF] => Some(true),
                         _ => None,
                     };
+                    self.source_is_utf16.set(self.utf16.is_some());
                 }
                 continue;
             }
@@ -328,6 +342,7 @@ pub fn buffered_input_from_reader_with_limit<'a, R: Read + 'a>(
     reader: R,
     max_bytes: Option<usize>,
 ) -> (ReaderInput<'a>, ReaderInputError) {
+    let source_is_utf16 = Rc::new(Cell::new(false));
     // Auto-detect encoding (BOM or guess), decode to UTF-8 on the fly.
     let decoder = DecodeReaderBytesBuilder::new()
         .encoding(None) // None = sniff BOM / use heuristics; set Some(encoding) to force
@@ -335,12 +350,13 @@ pub fn buffered_input_from_reader_with_limit<'a, R: Read + 'a>(
         // truncated UTF-8 is reported by `ChunkedChars` instead of being replaced with U+FFFD.
         .utf8_passthru(true)
         .strip_bom(true)
-        .build(Utf16TailGuard::new(reader));
+        .build(Utf16TailGuard::new(reader, source_is_utf16.clone()));
 
     let error: ReaderInputError = Rc::new(RefCell::new(None));
 
     let br = BufReader::new(Box::new(decoder) as DynReader<'a>);
-    let char_iter = ChunkedChars::new(br, max_bytes, error.clone());
+    let mut char_iter = ChunkedChars::new(br, max_bytes, error.clone());
+    char_iter.source_is_utf16 = source_is_utf16;
 
     (BufferedInput::new(char_iter), error)
 }
